@@ -5,9 +5,8 @@ CONSTANTS
   MsgKeys = {"o1", "o2", "a1", "a2", "b1"}
   MaxDec = 2
   ManualMax = 2
-  Combos <- CombosQ4
-  MaxHist = 3
-INVARIANTS TypeOK NoHeldFromAuthenticated HeldInScope OneDirectionPerSender ForeignPairsUntouched
-PROPERTIES StepOK
-VIEW View
+  Combos <- CombosAll
+  MaxHist = 2
+VIEW GenView
+ACTION_CONSTRAINT EmitBehaviour
 CHECK_DEADLOCK FALSE
